@@ -265,8 +265,10 @@ func (p *Pred) Text() string {
 
 // numeric meaning tables: label values whose parse is tabulated, so the oracle re-implements no parser.
 var (
-	numValues = map[string]float64{"200": 200, "404": 404, "500": 500, "0": 0, "-3": -3, "1.5": 1.5, "1e3": 1000, "42": 42, "3": 3, "007": 7, "+5": 5}
-	numBad    = []string{"abc", "12abc", "1.2.3", "--1", "ten", "info", "warn", "error", "ERROR", "", "debug", "true", "false"} // true/false: JSON booleans exposed by | json
+	numValues = map[string]float64{"200": 200, "404": 404, "500": 500, "0": 0, "-3": -3, "1.5": 1.5, "1e3": 1000, "42": 42, "3": 3, "007": 7, "+5": 5,
+		// zero-padded decimals are decimals (not octal); integers beyond 2^53 compare as the nearest float64
+		"0100": 100, "010": 10, "0644": 644, "1700000000000000000": 1.7e18, "9007199254740993": 9007199254740992, "-9223372036854775808": -9223372036854775808}
+	numBad    = []string{"abc", "12abc", "1.2.3", "--1", "ten", "info", "warn", "error", "ERROR", "", "debug", "true", "false", "0x1f", "0b101", "0o17"} // true/false: JSON booleans exposed by | json
 	durValues = map[string]time.Duration{"150ms": 150 * time.Millisecond, "2s": 2 * time.Second, "1m30s": 90 * time.Second, "1h": time.Hour, "0s": 0, "1.5s": 1500 * time.Millisecond, "250us": 250 * time.Microsecond, "3m": 3 * time.Minute}
 	durBad    = []string{"bad", "5", "1 s", "s", "1d2", "info", "warn", "error", "ERROR", "", "debug"}
 	bytValues = map[string]uint64{"10KB": 10000, "1MiB": 1048576, "512": 512, "1.5KB": 1500, "42B": 42, "2MB": 2000000, "1KiB": 1024, "0": 0}
